@@ -441,9 +441,9 @@ def derivative(form, coefficient, argument=None, coefficient_derivatives=None):
             elif isinstance(coefficient, BaseForm) and not isinstance(
                 coefficient, BaseFormOperator
             ):
-                # Make the `ZeroBaseForm` arguments
-                arguments = form.arguments() + coefficient.arguments()
-                return ZeroBaseForm(arguments)
+                # Make the `ZeroBaseForm` arguments: the new argument is the
+                # direction (a Coargument), not the argument of the cofunction.
+                return ZeroBaseForm(form.arguments() + tuple(arguments.ufl_operands))
             else:
                 fd = CoefficientDerivative(
                     itg.integrand(), coefficients, arguments, coefficient_derivatives
